@@ -68,6 +68,16 @@ def alias_of(v):
         return bool(v)
     if v == '':
         return None
+    if isinstance(v, str):
+        # what Excel's own comparison confuses with v: the other letter case
+        if v.swapcase() != v:
+            return v.swapcase()
+        try:
+            return float(v) if '.' in v else int(v)
+        except ValueError:
+            return None
+    if isinstance(v, (int, float)):
+        return str(v)
     return None
 
 
